@@ -50,6 +50,7 @@ def check(run):
         run.guard("C08.1.state-coverage", cfg + "/engine", lambda: rule_engine_fields(run, F, cfg))
         b = run.borrow("C07", why="filters_tagged on the wire reflects the producer's tags; the consumer's are re-applied")
         run.guard("C08.via.C07.4.deserialize", cfg, lambda: _C07.rule_deserialize(b, F, cfg))
+        run.guard("C08.5.helpers-lossless", cfg, lambda: rule_helpers(run, F, cfg))
 
 
 def rule_coverage(run, F, cfg):
@@ -459,3 +460,18 @@ def rule_header(run, F, cfg):
     run.ob("C08.4.header", "deserialize-dispatch", ok_d and bool(v0call) and okv,
            "DeserializeFormat::deserialize checks starts_with(MAGIC) and dispatches to the v0 decoder "
            "on version byte 0", site=d.loc(0), config=cfg)
+
+
+def rule_helpers(run, F, cfg):
+    """the `serialize_with` helpers that stabilise hash containers write every element: they re-collect into an
+    ordered container of the same elements (BTreeSet / BTreeMap / sorted Vec) and drop or merge nothing"""
+    hs = [g for n, g in F.fns.items() if re.search(r"data_format::utils::stabilize_\w+_serialization$", n)]
+    run.floor("C08.5.helpers-lossless", f"stabilising helpers [{cfg}]", len(hs), 2)
+    for g in hs:
+        run.touched(g)
+        lossy = [strip_generics(t["callee"]).split("::")[-1] for x in [g] + F.closures_of(g.name) for b, t in x.calls(
+            r"::(dedup|dedup_by|dedup_by_key|retain|filter|filter_map|take|skip|truncate|to_lowercase|to_ascii_lowercase|sort_by_cached_key|sort_by_key)$")]
+        coll = g.calls(r"Iterator::collect$")
+        run.ob("C08.5.helpers-lossless", g.name.split("::")[-1], bool(coll) and not lossy,
+               f"{g.name.split('::')[-1]} re-collects the container's own elements and applies no de-duplication, filter or "
+               f"lossy key (found: {lossy})", site=g.loc(0), config=cfg)
